@@ -146,6 +146,11 @@ def simulate(spec):
     nops = sum(len(p) for p in programs)
     globals_at = [[None] * len(p) for p in programs]
     post = [[None] * len(p) for p in programs]
+    # the USER's warnings-filter setting (what the admin task last asked for; the harness default is "ignore") in force
+    # at the start of every operation, and whether a change of it overlapped the operation
+    userfilter_at = [[None] * len(p) for p in programs]
+    filter_unstable = [[False] * len(p) for p in programs]
+    uf = {"current": "ignore", "changing": 0, "running": {}}
 
     def exec_op(t, op):
         ctx = ctxs[t.idx]
@@ -171,7 +176,21 @@ def simulate(spec):
         if phase == "start":
             globals_at[t.idx][i] = snap_globals()
             t.step_budget = op_step_budget(op, world)
+            userfilter_at[t.idx][i] = uf["current"]
+            if op.get("op") == "warn_filter":
+                uf["changing"] += 1
+                for (tj, j) in uf["running"]:
+                    filter_unstable[tj][j] = True
+            else:
+                uf["running"][(t.idx, i)] = True
+                if uf["changing"]:
+                    filter_unstable[t.idx][i] = True
         else:
+            if op.get("op") == "warn_filter":
+                uf["changing"] -= 1
+                uf["current"] = op["action"]
+            else:
+                uf["running"].pop((t.idx, i), None)
             if op.get("op") in ("zero", "elev", "fire"):
                 w = b.cache.get(("weapons", world["shots"][op["shot"]]["weapon"]))
                 ze = getattr(w, "zero_elevation", None)
@@ -192,6 +211,7 @@ def simulate(spec):
     return {
         "where_log": sim.where_log,
         "results": results, "globals_at": globals_at, "post": post, "o2": snaps.violations,
+        "userfilter_at": userfilter_at, "filter_unstable": filter_unstable,
         "schedule": sim.schedule, "faults_fired": sim.fault_fired, "events": sim.events, "steps": sim.steps,
         "switches": sim.switches, "overlap": sorted([[a, c, n] for (a, c), n in sim.overlap.items()]),
         "touch_calls": sim.touch_calls, "snapshots": snaps.count,
